@@ -20,7 +20,7 @@ Record params := mkparams {
   p_contig : bool;             (* allocation policy: false = lowest free units first, true = first-fit contiguous run *)
   p_meta_kind : N;             (* 0 none, 1 DOS T/S lists (one per 122 chunk slots), 2 ProDOS index blocks *)
   p_holes : bool;              (* sparse files allowed *)
-  p_force0 : bool;             (* chunk 0 is always materialised (ProDOS as coded) *)
+  p_force0 : bool;             (* chunk 0 is always materialised (ProDOS as coded until the first-slot fix; no instance sets it now) *)
   p_rootcap : N;               (* entries the root/volume directory can hold *)
   p_subdirs : bool;
   p_sub_first : N;             (* entries in the first unit of a subdirectory *)
